@@ -365,6 +365,7 @@ class HttpStreamSession:
         "_capabilities",
         "_client",
         "_compression_level",
+        "_deferred_error",
         "_external_config",
         "_finished",
         "_header",
@@ -395,6 +396,7 @@ class HttpStreamSession:
         header: object | None = None,
         retry_config: HttpRetryConfig | None = None,
         compression_level: int | None = None,
+        deferred_error: RpcError | None = None,
     ) -> None:
         """Initialize with HTTP client, method details, and initial state."""
         self._client = client
@@ -416,6 +418,17 @@ class HttpStreamSession:
         self._retry_config = retry_config
         self._compression_level = compression_level
         self._capabilities: HttpServerCapabilities | None = None
+        # An error the init response carried *after* a header or data batches.
+        # What preceded it is delivered first; the error is raised at the point
+        # in the stream where the server reported it.
+        self._deferred_error = deferred_error
+
+    def _raise_deferred_error(self) -> None:
+        """Raise (once) the error that followed the init response's header and batches."""
+        error = self._deferred_error
+        if error is not None:
+            self._deferred_error = None
+            raise error
 
     def _maybe_externalize_request(self, body: bytes) -> bytes:
         """Pre-emptively externalize *body* if cached caps say it's too large.
@@ -533,6 +546,7 @@ class HttpStreamSession:
             RpcError: If the server reports an error or the stream has finished.
 
         """
+        self._raise_deferred_error()
         if self._state_bytes is None:
             raise RpcError("ProtocolError", "Stream has finished — no state token available", "")
 
@@ -623,6 +637,7 @@ class HttpStreamSession:
         # Yield pre-loaded batches from init response
         yield from self._pending_batches
         self._pending_batches.clear()
+        self._raise_deferred_error()
 
         if self._finished:
             return
@@ -697,6 +712,7 @@ class HttpStreamSession:
             if len(self._pending_batches) > 1:
                 raise RuntimeError(_multi)
             return self._pending_batches.pop(0), self._resume_token()
+        self._raise_deferred_error()
 
         if self._finished or self._state_bytes is None:
             self._finished = True
@@ -757,6 +773,7 @@ class HttpStreamSession:
         """
         self._state_bytes, self._call_state_bytes = _decode_resume_token(token)
         self._pending_batches = []
+        self._deferred_error = None
         self._finished = False
 
     def close(self) -> None:
@@ -993,7 +1010,11 @@ def _init_http_stream_session(
         A configured ``HttpStreamSession`` ready for iteration or exchange.
 
     Raises:
-        RpcError: If the server reports an error in the init response.
+        RpcError: If the server reports an error in the init response before
+            anything else.  An error that follows a header or data batches is
+            not raised here: the session delivers what preceded it and raises
+            the error from the iteration / exchange that reaches it, as the
+            other transports do.
 
     """
     output_schema = reader.schema
@@ -1001,6 +1022,7 @@ def _init_http_stream_session(
     call_state_bytes: bytes | None = None
     pending_batches: list[AnnotatedBatch] = []
     finished = False
+    deferred_error: RpcError | None = None
 
     try:
         while True:
@@ -1032,11 +1054,16 @@ def _init_http_stream_session(
                 batch, custom_metadata, external_config, on_log, reader.ipc_validation
             )
             pending_batches.append(AnnotatedBatch(batch=resolved_batch, custom_metadata=resolved_cm))
-    except RpcError:
+    except RpcError as exc:
         _drain_stream(reader)
-        raise
-
-    _drain_stream(reader)
+        if header is None and not pending_batches:
+            raise
+        # The server produced a header and/or batches before it failed; those
+        # are part of the stream and must reach the caller ahead of the error.
+        deferred_error = exc
+        finished = True
+    else:
+        _drain_stream(reader)
 
     return HttpStreamSession(
         client=client,
@@ -1053,6 +1080,7 @@ def _init_http_stream_session(
         header=header,
         retry_config=retry_config,
         compression_level=compression_level,
+        deferred_error=deferred_error,
     )
 
 
